@@ -31,7 +31,7 @@ ASSUMPTIONS = [
 ]
 BOUNDS = {
     "quick": "K3 complete: no filter = all ordered query pairs per state + all edges x 16 pre-queries + resets; 5 more filter configs = forward/reverse + edges; K4[seed%16::16] and probes: forward/reverse + pairs on memoised queries",
-    "thorough": "K3: + all ordered triples of the 10 memoised queries; K4 complete: pairs + edges; M3; probes",
+    "thorough": "K3: all 225 ordered pairs + all ordered triples of the 10 memoised queries + edges x 16 pre-queries; K4 complete: forward/reverse + edges (no filter), K4[seed%4::4]: + ordered pairs of memoised queries and 5 filter configs; M3 small; probes",
 }
 
 FILTER_CFGS = [
@@ -55,8 +55,8 @@ def cases(tier, seed):
         for spec in F.P_LARGE:
             out.append(("queries", spec, "basic", False))
     else:
-        for spec in F.K4():
-            out.append(("queries", spec, "full", False))
+        for i, spec in enumerate(F.K4()):
+            out.append(("queries", spec, "std" if i % 4 == seed % 4 else "edges-only", False))
         for spec in F.M3_small():
             out.append(("queries", spec, "cached-pairs", False))
         for spec in F.P_ALL:
